@@ -53,7 +53,7 @@ var errPred = errors.New("predicate fails")
 
 type caseSpec struct {
 	payload, format, source, schema, signer, pred int
-	listed                                      bool
+	listed                                        bool
 }
 
 func (c caseSpec) String() string {
@@ -374,7 +374,7 @@ func main() {
 			res.Samples = append(res.Samples, cases[job.Scn*chunk].String())
 			return res
 		},
-		Rule: "the full product payload {plain, ID, Data, ID+Data, ID()==\"\"} x Format {unset, json, text, invalid} x Source {set, nil, empty} x Schema {nil, set, empty} x Signer {nil, succeeding, failing} x event type {listed, not listed for signing} x Predicate {nil, true, false, error} = 4320 cases on the real FormatterFilter; the emitted bytes are parsed back: required members, specversion 1.0, time, data (payload or Data()), content type, schema, indentation, fresh unique ids; signed iff signer and listed, serialized base64url-decodes to exactly the bytes the signer saw and to the unsigned document (byte-identical to an unsigned twin run when the id is fixed), serialized_hmac is the signer's result; failing signer => not forwarded; the document stored for the previously formatted event stays unchanged; invalid configurations and empty IDs rejected.",
+		Rule:        "the full product payload {plain, ID, Data, ID+Data, ID()==\"\"} x Format {unset, json, text, invalid} x Source {set, nil, empty} x Schema {nil, set, empty} x Signer {nil, succeeding, failing} x event type {listed, not listed for signing} x Predicate {nil, true, false, error} = 4320 cases on the real FormatterFilter; the emitted bytes are parsed back: required members, specversion 1.0, time, data (payload or Data()), content type, schema, indentation, fresh unique ids; signed iff signer and listed, serialized base64url-decodes to exactly the bytes the signer saw and to the unsigned document (byte-identical to an unsigned twin run when the id is fixed), serialized_hmac is the signer's result; failing signer => not forwarded; the document stored for the previously formatted event stays unchanged; invalid configurations and empty IDs rejected.",
 		Assumptions: []string{"uniqueness of generated ids is checked across the cases of one worker process only (probabilistic property of a 10-character random id)"},
 		QuickBudget: 120 * time.Second, ThoroughBudget: 10 * time.Minute,
 	})
